@@ -90,7 +90,7 @@ def interp_level(ctx: Ctx):
         st = interp.refine((), (xt, ys), None, doms)
         gn = [[Fraction(t) for t in np.asarray(st.x_grids[v]).tolist()] for v in names]
         case0 = {'domains': doms, 'grids': grids, 'data': {k: v.tolist() for k, v in ys.items()}}
-        for _ in range(3):
+        for pt_idx in range(3):
             pk = [pick_point(rng, grids[v], *doms[v]) for v in names]
             x = [p for p, _ in pk]; kinds = [k for _, k in pk]
             xf = [Fraction(t) for t in x]
@@ -119,7 +119,8 @@ def interp_level(ctx: Ctx):
             for o in ys:
                 lines.append('lagr_grad ' + enc([lagr.state_grids(st, names), [q(t) for t in x], [q(t) for t in ys[o].tolist()]]))
                 meta.append((case, o, grad[o], gn, ys[o]))
-                if hess is not None:
+                # exact-rational Hessians of large tensor grids are the slow part: the quick tier sends one point per grid and only grids of <= 27 nodes
+                if hess is not None and (not ctx.quick or (pt_idx == 0 and len(prod) <= 27)):
                     lines.append('lagr_hess ' + enc([lagr.state_grids(st, names), [q(t) for t in x], [q(t) for t in ys[o].tolist()]]))
                     meta.append((case, o, ('hess', hess[o]), gn, ys[o]))
     for (case, o, gimpl, gn, y), mo in zip(meta, run_model(lines, shards=16)):
